@@ -6,6 +6,7 @@ pub mod clock;
 pub mod core;
 pub mod hooks;
 pub mod iso;
+pub mod net;
 pub mod pgen;
 pub mod rvbin;
 pub mod srv;
